@@ -46,6 +46,7 @@ namespace bxdecay0 {
 
   void Bi210(i_random & prng_, event & event_, const double tcnuc_, double & tdnuc_)
   {
+    BXDECAY0_VERIF_SCOPE("scheme:Bi210", tcnuc_);
     double t;
     double tdlev;
     double palfa;
